@@ -77,6 +77,14 @@ CHECKS = {
              'thorough': {'K': 1, 'lens_by_tag': [['SPSSODescriptors', [1, 0, 2]], ['AssertionConsumerServices', [1, 0, 2]]]}},
         ],
     },
+    'C15': {
+        'level_text': 'z3 decides, for every int64 nanosecond duration at once, that UnmarshalText(MarshalText(d)) = d on the SSA of the real functions (integer arithmetic with explicit two\'s-complement wrap; the numerals are kept as tokens so the solver reasons about the integers, not digit strings); replayed natively. Claimed for the Duration half of the property only.',
+        'level_note': 'real Duration.MarshalText and Duration.UnmarshalText executed from SSA; fmt %d / %09d, strings.TrimRight/Cut, strconv.Atoi/ParseFloat (correctly rounded) and the two duration regexps are exact token-level contracts keyed by their pattern text (a changed pattern has no contract: inconclusive). Outside (not claimed): RelaxedTime text <-> instant (time.Format/Parse are library loops), the metadata marshal/unmarshal fixed point (reflection-driven encoding/xml), acceptance of arbitrary xsd:duration texts.',
+        'harnesses': [
+            {'name': 'Harness_C15_roundtrip', 'pkg': 'saml', 'replay': 'direct', 'must_reach': ['roundtrip'], 'opts': {'dec_tokens': True, 'timeout_ms': 10000, 'concrete_fallback': 3000}, 'thorough': {'timeout_ms': 300000}, 'budget_s': {'quick': 900, 'thorough': 3000}},
+            {'name': 'Harness_C15_minint', 'pkg': 'saml', 'replay': 'direct', 'must_reach': ['roundtrip'], 'opts': {'dec_tokens': True}},
+        ],
+    },
     'C16': {
         'level_text': 'path exploration + z3 decide, over seven token provenances and arbitrary claims, issuer/audience strings and clock, that the session codec yields a session only for a token under this SP key and algorithm with the session marker, matching issuer and audience and a validity period containing now; replayed natively with real signed JWTs.',
         'level_note': 'real JWTSessionCodec.Decode/New and golang-jwt ParseWithClaims (ValidMethods loop, key function, StandardClaims.Valid, VerifyAudience/VerifyIssuer) executed from SSA. Token serialisation and signature verification are contract stubs: a token is a string with a provenance (signing key, algorithm, claims); Verify succeeds only under the public half of the signing key with the same algorithm. Provenances: garbage, this key+alg, other key, alg none, HS256 over public bytes, RS384 with this key, tracking-token claims. Outside: RS256/ES256 themselves, JSON encoding of claims.',
